@@ -49,6 +49,15 @@ macro_rules! observe {
                     Ok(s) => { let sl = $sl; for x in sl(s) { c.push(cell(x)) } }
                     Err(_) => c.push(Cell::Err),
                 }
+                // the unchecked twin must be the same sub-sequence (a backend may override it separately); a difference is
+                // reported as an extra Err cell that no model output contains
+                {
+                    let sl = $sl;
+                    let chk: Vec<Cell> = match Vec1View::slice(v, a, b) { Ok(s) => sl(s).into_iter().map(|x| cell(x)).collect(), Err(_) => vec![] };
+                    let sl2 = $sl;
+                    let un: Vec<Cell> = sl2(unsafe { Vec1View::uslice(v, a, b) }.unwrap()).into_iter().map(|x| cell(x)).collect();
+                    if format!("{:?}", chk) != format!("{:?}", un) { c.push(Cell::Err) }
+                }
                 c.push(Cell::Sep);
             }
         }
@@ -205,6 +214,20 @@ macro_rules! all_outputs {
                 { let b = Some(VecDeque::<f64>::uninit_ref_mut(&mut u)); let _: Option<VecDeque<f64>> = $v.$fto($($a,)* b); }
                 u.into_iter().map(|x| { let x = unsafe { x.assume_init() }; if x == -7.77e77 { Cell::Uninit } else { Cell::F(x) } }).collect::<Vec<_>>()
             })) { Ok(c) => mk(c), Err(k) => mk(vec![Cell::Panic(k)]) });
+        // a NON-CONTIGUOUS caller buffer: every second cell of a longer ndarray, and the same reversed
+        for step in [2isize, -2] {
+            $em.case("custom:same2", &format!("{} out=nd_step{} path=to", $tags, step), &format!("{} out=nd_step{} path=to", $desc, step), || "(@nil Z)".into(),
+                || match guarded(std::panic::AssertUnwindSafe(|| {
+                    let len = GetLen::len(&$v);
+                    if len == 0 { return vec![]; }
+                    let mut big: Array1<MaybeUninit<f64>> = Array1::from_iter(Iterator::map(0..(len - 1) * 2 + 1, |_| MaybeUninit::new(-7.77e77)));
+                    { let b = Some(big.slice_mut(s![..;step])); let _: Option<Array1<f64>> = $v.$fto($($a,)* b); }
+                    let all: Vec<f64> = Iterator::map(big.into_iter(), |x| unsafe { x.assume_init() }).collect();
+                    let mut c: Vec<Cell> = Iterator::map(0..len, |i| { let x = if step > 0 { all[i * 2] } else { all[(len - 1 - i) * 2] }; if x == -7.77e77 { Cell::Uninit } else { Cell::F(x) } }).collect();
+                    if Iterator::any(&mut all.iter().enumerate(), |(p, x)| p % 2 == 1 && *x != -7.77e77) { c.push(Cell::Err) }
+                    c
+                })) { Ok(c) => mk(c), Err(k) => mk(vec![Cell::Panic(k)]) });
+        }
         $em.case("custom:same2", &format!("{} out=nd path=to", $tags), &format!("{} out=nd path=to", $desc), || "(@nil Z)".into(),
             || match guarded(std::panic::AssertUnwindSafe(|| {
                 let len = GetLen::len(&$v);
